@@ -216,6 +216,8 @@ def materialize_pair(case):
         # the same rows in grouped order (a table sorted by one of the two columns): no score depends on the row order
         order = np.argsort(X if case['sort'] == 'x' else Y, kind='stable')
         Y, X = Y[order], X[order]
+    if case.get('swap'):
+        Y, X = X, Y
     return Y, X
 
 
